@@ -168,7 +168,7 @@ func ruleC15GuardedReach(c *Ctx) {
 			}
 		}
 	}
-	if reaching < 15 {
+	if reaching < half(15) {
 		c.unresolved("only %d exported fs methods reach a sink (expected >= 15): sink model is broken", reaching)
 	}
 	// the exemption must stay narrow: inside Initialize, the root-creating closure has to test readOnly itself
@@ -329,7 +329,7 @@ func ruleC15FlagIntegrity(c *Ctx) {
 				"dominated by the flags.Write test", "enterWriteMode reachable without the flags.Write test")
 		}
 	}
-	if n < 4 {
+	if n < half(4) {
 		c.unresolved("only %d calls of enterWriteMode found (expected >= 4)", n)
 	}
 }
